@@ -3,7 +3,7 @@ import math
 
 import numpy as np
 
-from vlib.core import Unit
+from vlib.core import Unit, PropertyViolation
 from vlib import geom
 
 PROPERTY = "C10"
@@ -223,6 +223,18 @@ def body_geometry(ctx, case):
     except Exception:  # noqa: BLE001 - the detour itself is not judged here
         pass
     eng.poly, eng.scale, eng.line_height = saved
+    # only the scale is changed (same heights, same target height): the map is that of a cropper built with that scale
+    eng.scale = saved[1] * 1.25
+    try:
+        rescaled = np.asarray(eng.get_crop_inputs(b_arr, h_arr, case["line_height"]))
+        fresh_rescaled = np.asarray(EngineLineCropper(line_height=saved[2], poly=saved[0], scale=saved[1] * 1.25).get_crop_inputs(b_arr.copy(), h_arr.copy(), case["line_height"]))
+        ctx.check(rescaled.shape == fresh_rescaled.shape and np.array_equal(rescaled, fresh_rescaled), "crop_map_depends_on_settings_the_cropper_had_before",
+                  lambda: "after the scale was changed at run time: shapes %r %r; " % (rescaled.shape, fresh_rescaled.shape) + desc())
+    except PropertyViolation:
+        raise
+    except Exception:  # noqa: BLE001 - a setting for which the map cannot be built is not judged here
+        pass
+    eng.scale = saved[1]
     back = np.asarray(eng.get_crop_inputs(b_arr, h_arr, case["line_height"]))
     ctx.check(back.shape == first.shape and np.array_equal(back, first), "crop_map_depends_on_settings_the_cropper_had_before",
               lambda: "shapes %r %r; " % (back.shape, first.shape) + desc())
@@ -364,6 +376,14 @@ def body_pixels(ctx, case):
     cropped = crop_image(ctx, eng, cut, cb.copy(), list(case["heights"]))
     map2 = np.asarray(eng.get_crop_inputs(cb.copy(), list(case["heights"]), case["line_height"]))
     ctx.check(cropped.shape[:2] == map2.shape[:2], "crop_fell_back_to_blank", lambda: "cut crop shape %r; " % (cropped.shape,) + desc())
+    # the return modes give the same crop for a line that leaves the page, too
+    if cropped.shape[1] <= 400 and min(cut.shape[:2]) >= 2:
+        bw_cut = ctx.must("crop_raises", eng.crop, cut, cb.copy(), list(case["heights"]), True)
+        ctx.check(isinstance(bw_cut, tuple) and np.array_equal(bw_cut[0], cropped), "crop_with_reverse_mapping_differs_from_plain_crop",
+                  lambda: "line partly outside the page; " + desc())
+    fw_cut = ctx.must("crop_raises", eng.crop, cut, cb.copy(), list(case["heights"]), False, True)
+    ctx.check(isinstance(fw_cut, tuple) and np.array_equal(fw_cut[0], cropped), "crop_with_forward_mapping_differs_from_plain_crop",
+              lambda: "line partly outside the page; " + desc())
     if cropped.shape == ref.shape:
         # same truncation of coordinates -> the two maps differ by the integer offset only
         sx, sy = map2[:, :, 0], map2[:, :, 1]
